@@ -148,6 +148,7 @@ class World:
         self.log_level = log_level
         self.send_msg_timing = send_msg_timing
         self.p_notwritable = p_notwritable      # (num, den) per connection per probe
+        self.p_peer_stall = (0, 1)              # (num, den) per client write-readiness wait
         self.arrival_bias = arrival_bias        # weight of "everything arrives"
         self.max_rounds = max_rounds
         # MessageManager(debug=...) is a configuration like any other: drawn per run unless given
@@ -430,10 +431,21 @@ class World:
         for s in rlist + wlist:
             if s.closed:
                 raise ValueError("file descriptor cannot be a negative integer (-1)")
-        if wlist and not rlist:
-            return [], list(wlist), []
         if timeout is not None and timeout < 0:
             raise ValueError("timeout must be non-negative")
+        if wlist and not rlist:
+            # a client's own socket may be unable to take data for a while (full send buffer, busy manager):
+            # a blocking wait sits it out, a wait with a timeout shorter than the stall comes back empty
+            num, den = self.p_peer_stall
+            if num and self.choices.flag("peer.stall", num, den):
+                d = self.choices.choose("peer.stall.d", [0.3, 1.5, 4.0])
+                self.net.stats["peer_write_stall"] += 1
+                if timeout is not None and timeout < d:
+                    self.clock.advance(timeout)
+                    self.net.stats["peer_write_stall_expired"] += 1
+                    return [], [], []
+                self.clock.advance(d)
+            return [], list(wlist), []
         s = rlist[0]
         if s.readable():
             return [s], [], []
